@@ -415,7 +415,7 @@ brk('c19_accu_not_private', 'C19', MAC, '''    let init = helper.next_expr(Expr:
     let result_binding = "result".to_string();''')
 # ---- C04
 GENP = 'antlr/src/gen/celparser.rs'
-brk('c04_calc_right_assoc', 'C04', GENP, '''					recog.calc_rec(3)?;''', '''					recog.calc_rec(2)?;''')
+brk('c04_calc_right_assoc', 'C04', GENP, '''recog.calc_rec(3)?;''', '''recog.calc_rec(2)?;''')
 brk('c04_swap_operands_calc', 'C04', PAR, '''                        Some(op) => {
                             self.global_call_or_macro(op_id, op.to_string(), vec![lhs, rhs])
                         }
